@@ -6,11 +6,12 @@
    Specs  : Spec/CleanDoc.v (inspect.cleandoc and the str methods it uses, validated against CPython on
             every run), Spec/Reporting.v (which msg() calls are problems, the exit rule, shifting).
    Not proved here (observed end-to-end by the correspondence check and the oracle only): the line a
-   parser attributes to a paragraph / list item / field inside the cleaned docstring (epytext
-   Token.startline, docutils node.line, napoleon) -- DESIGN's C16_epytext_block_line is NOT part of
-   this file. *)
+   docutils and napoleon attribute to a block inside the cleaned docstring (node.line, get_lineno's inputs): they
+   enter as oracles with the contracts stated at C16_rst_field_line / C16_get_lineno / C16_report_inside_docstring.
+   The epytext tokenizer IS modelled (Model/EpyLines.v, regex tests on single lines as an oracle). *)
 From Coq Require Import ZArith NArith List Bool.
 From PydoctorVerif Require Import Base.Sexp Spec.CleanDoc Spec.Reporting Model.Msg Model.Lines Proofs.LinesProofs.
+From PydoctorVerif Require Model.EpyLines Spec.EpyBlocks Proofs.EpyProofs.
 Import ListNotations.
 Local Open Scope Z_scope.
 
@@ -271,3 +272,166 @@ Example C16_exit_example :
   fst (main_tail 0 false [] {| once_msgs := []; violations := 1; printed := [] |} [(sec_docstring, [[97]%N])]) = 2 /\
   fst (main_tail 0 true [] {| once_msgs := []; violations := 1; printed := [] |} []) = 3.
 Proof. split; [intros H; discriminate|]. vm_compute. repeat split. Qed.
+
+(* ---- field lines, cross-reference lines, and the envelope --------------------------------------------------
+   reST / google / numpy fields: the splitter stores (docutils' 1-based line of the field marker, list item or
+   term) - 1, so -- CONTRACT on docutils: node.line is that 1-based line -- a field problem is reported on
+   docstring_lineno + (L - 1), the physical line of the marker; the attribute documented by the field gets the
+   same line.  epytext fields: the bullet token's startline. *)
+Theorem C16_rst_field_line :
+  forall ds ln m L, ds <> 0 ->
+    report_line sec_docstring ds ln (rst_field_lineno L) m = Num (ds + (L - 1)) /\
+    field_attr_lineno ds (rst_field_lineno L) = ds + (L - 1).
+Proof. exact rst_field_line. Qed.
+
+Theorem C16_epytext_field_line :
+  forall ds ln m z, ds <> 0 -> report_line sec_docstring ds ln (epytext_field_lineno z) m = Num (ds + Z.of_nat z).
+Proof. exact epytext_field_line. Qed.
+
+(* cross-references, get_lineno: docutils nodes (the reference has no line, its block is on 1-based line pl, the
+   reference nl newlines into it) and epytext nodes (to_node puts the 0-based startline on the reference) *)
+Theorem C16_get_lineno_rst :
+  forall ds ln m pl nl, ds <> 0 ->
+    report_line sec_xref ds ln (get_lineno 0 (Some (pl, nl))) m = Num (ds + (pl - 1) + nl).
+Proof. exact get_lineno_rst. Qed.
+
+Theorem C16_get_lineno_epytext :
+  forall ds ln m z, ds <> 0 -> 0 <= z -> report_line sec_xref ds ln (get_lineno z None) m = Num (ds + z).
+Proof. exact get_lineno_epytext. Qed.
+
+(* get_lineno's first branch (`if node.line: line = node.line`) returns the node's own line unchanged: it is right only
+   for 0-based lines.  If a docutils-parsed reference ever carried its own (1-based) line the report would be one too
+   low.  Guard used above: node.line is None for references parsed by docutils -- observed on every end-to-end run
+   (harness: xref_own_line), not proved. *)
+Theorem C16_get_lineno_own_line_refuted :
+  ~ (forall ds ln m L anc, ds <> 0 -> 1 <= L ->
+       report_line sec_xref ds ln (get_lineno L anc) m = Num (ds + (L - 1))).
+Proof. exact get_lineno_own_line_refuted. Qed.
+
+(* The envelope ("some line of that docstring", all the property asks of google / numpy): whatever parser produced the
+   line, if it lies inside the cleaned docstring (0 <= off < number of its lines -- the CONTRACT on napoleon/docutils),
+   every report path prints a line inside the string literal; without the whitespace guard it can exceed the last line by
+   at most the overshoot. *)
+Theorem C16_report_inside_docstring :
+  forall (s : text) (n0 ln off : Z) (m : bool) (d : text),
+    1 <= n0 -> has_content s = true -> leading_ws_fit s = true ->
+    0 <= off < Z.of_nat (length (cleandoc_lines s)) ->
+    let ds := linenum_of_docstring false n0 s in
+    let inside v := exists z, v = Num z /\ n0 <= z <= n0 + Z.of_nat (length (split_nl s)) - 1 in
+    inside (report_line sec_docstring ds ln (perr_offset {| pe_descr := d; pe_stored := Some off |}) m) /\
+    inside (report_line sec_docstring ds ln off m) /\
+    inside (report_line sec_xref ds ln off m).
+Proof. exact every_path_inside_docstring. Qed.
+
+Theorem C16_report_inside_docstring_general :
+  forall (s : text) (n0 off : Z),
+    has_content s = true -> 0 <= off < Z.of_nat (length (cleandoc_lines s)) ->
+    n0 <= linenum_of_docstring false n0 s + off <=
+      n0 + Z.of_nat (length (split_nl s)) - 1 + Z.of_nat (top_dropped s - top_kept s).
+Proof. exact report_inside_docstring_general. Qed.
+
+(* ---- once / topthresh as a refinement --------------------------------------------------------------------
+   A call suppressed by `once` repeats an earlier once-only call with the same (section, message) that was itself
+   handled (not suppressed). *)
+Theorem C16_once_suppressed_repeats_handled :
+  forall pre c, suppressed pre c = true ->
+    exists pre1 c0 pre2, pre = pre1 ++ c0 :: pre2 /\ c_once c0 = true /\
+      key_eqb (call_key c) (call_key c0) = true /\ suppressed pre1 c0 = false.
+Proof. exact suppressed_has_first. Qed.
+
+(* "a problem suppressed by once was already counted once" -- false in general: the earlier once-only message with the
+   same (section, message) may have had a non-negative threshold ... *)
+Theorem C16_once_suppressed_uncounted_refuted :
+  ~ (forall v pre c, suppressed pre c = true -> is_problem c = true -> (1 <= violations (msgs v init_state pre))%N).
+Proof. exact once_suppressed_uncounted_refuted. Qed.
+
+(* ... and true under the guard that once-only messages with the same (section, message) agree on being problems (in
+   pydoctor every once=True call site has its own section string and a fixed threshold: checked from the source on every
+   run, harness op `oncesites`) *)
+Theorem C16_once_suppressed_already_counted :
+  forall v pre c,
+    (forall d, In d pre -> c_once d = true -> key_eqb (call_key c) (call_key d) = true -> is_problem d = is_problem c) ->
+    suppressed pre c = true -> is_problem c = true ->
+    (1 <= violations (msgs v init_state pre))%N.
+Proof. exact once_suppressed_already_counted. Qed.
+
+(* the refinement: per (section, message) pair, the problems counted are the plain (not once-only) problem calls plus one
+   if there is a once-only problem call -- the abstract multiset System.violations implements *)
+Theorem C16_once_refinement :
+  forall k cs, once_consistent cs -> count_key k (problems cs) = abstract_count k cs.
+Proof. exact once_refinement. Qed.
+
+Theorem C16_counting_ignores_topthresh :
+  forall f v cs st, once_msgs st = [] ->
+    violations (msgs v st (map (with_topthresh f) cs)) = violations (msgs v st cs).
+Proof. exact counting_ignores_topthresh. Qed.
+
+Example C16_once_refinement_example :
+  let c t o := {| c_section := [101]%N; c_msg := [109]%N; c_thresh := t; c_topthresh := 100; c_once := o |} in
+  let cs := [c (-1) true; c (-1) false; c (-1) true; c (-1) false; c 0 false] in
+  abstract_count ([101]%N, [109]%N) cs = 3%nat /\ violations (msgs 0 init_state cs) = 3%N.
+Proof. vm_compute. split; reflexivity. Qed.
+
+(* ---- epytext: Token.startline ---------------------------------------------------------------------------
+   For every list of lines (each seen through the single-line tests the tokenizer applies: Model/EpyLines.v) the
+   tokenizer terminates within its fuel and the blocks it produces are in order, separated only by blank lines,
+   non-empty, and -- except literal blocks, which begin where their `::` paragraph ended -- begin on a non-blank
+   line (Spec/EpyBlocks.v).  Every Token gets the `startline` of its block. *)
+Theorem C16_epytext_block_line :
+  forall lines : list EpyLines.eline,
+    exists bs es, EpyLines.tokenize lines = Some (bs, es) /\ EpyBlocks.blocks_ok lines 0 bs.
+Proof. exact EpyProofs.tokenize_ok. Qed.
+
+Theorem C16_epytext_token_startline :
+  forall bs t z, In (t, z) (EpyLines.tokens_of bs) ->
+    exists b, In b bs /\ z = EpyLines.b_start b /\ In t (EpyLines.b_tags b).
+Proof. exact EpyProofs.tokens_of_start. Qed.
+
+(* every non-blank line belongs to a block, and to one only: "the block containing the problem" is well defined *)
+Theorem C16_epytext_blocks_cover :
+  forall lines bs, EpyBlocks.blocks_ok lines 0 bs ->
+    forall j l, nth_error lines j = Some l -> EpyLines.blank l = false ->
+      exists b, In b bs /\ (EpyLines.b_start b <= j < EpyLines.b_stop b)%nat.
+Proof. intros lines bs H j l Hn Hb. exact (EpyProofs.blocks_cover lines bs 0 H j l (Nat.le_0_l j) Hn Hb). Qed.
+
+Theorem C16_epytext_blocks_disjoint :
+  forall lines bs, EpyBlocks.blocks_ok lines 0 bs ->
+    forall i1 i2 b1 b2 j, nth_error bs i1 = Some b1 -> nth_error bs i2 = Some b2 ->
+      (EpyLines.b_start b1 <= j < EpyLines.b_stop b1)%nat -> (EpyLines.b_start b2 <= j < EpyLines.b_stop b2)%nat -> i1 = i2.
+Proof. intros lines bs H. exact (EpyProofs.blocks_disjoint lines bs 0 H). Qed.
+
+(* The tokenizer's own warnings ("Possible mal-formatted field item.", "Improper doctest block indentation.", "Possible
+   heading typo") carry the line they are about, not a token's startline: that line is a non-blank line, so it lies inside
+   exactly one block -- a line of the paragraph / doctest block containing the problem (its first line only for the heading
+   typo). *)
+Theorem C16_epytext_error_lines_in_blocks :
+  forall lines bs es k z, EpyLines.tokenize lines = Some (bs, es) -> In (k, z) es ->
+    exists b, In b bs /\ (EpyLines.b_start b <= z < EpyLines.b_stop b)%nat.
+Proof. exact EpyProofs.tokenize_errors_in_blocks. Qed.
+
+(* ... hence, with C16_cleandoc_alignment and C16_offset_bases_epytext: an error or field warning that epytext
+   attaches to a token of a paragraph / list item / field / heading / doctest block of an aligned docstring is
+   reported on the physical line of the first line of that block. *)
+Theorem C16_epytext_report_first_line :
+  forall (s : text) (n0 ln : Z) (m : bool) (d : text) (lines : list EpyLines.eline) bs es b,
+    1 <= n0 -> has_content s = true -> leading_ws_fit s = true ->
+    length lines = length (cleandoc_lines s) ->
+    EpyLines.tokenize lines = Some (bs, es) -> In b bs -> EpyBlocks.is_lblock b = false ->
+    exists j : nat,
+      report_line sec_docstring (linenum_of_docstring false n0 s) ln
+                  (perr_offset (epytext_perr d (Z.of_nat (EpyLines.b_start b)))) m = Num (phys_line n0 j) /\
+      nth_error (cleandoc_lines s) (EpyLines.b_start b) = clean_line_of_value_line s j /\
+      (exists l, nth_error lines (EpyLines.b_start b) = Some l /\ EpyLines.blank l = false).
+Proof. exact EpyProofs.epytext_report_first_line. Qed.
+
+(* non-vacuity: "Para\n\n  - item\n    more\n@param a: b" seen through the oracle: a paragraph on line 0, a list item
+   (bullet + paragraph) on line 2, a field on line 4 *)
+Example C16_epytext_example :
+  let mk len ind bul := {| EpyLines.l_len := len; EpyLines.l_indent := ind; EpyLines.l_bullet := bul;
+                           EpyLines.l_doctest := false; EpyLines.l_dcolon := false; EpyLines.l_at := false;
+                           EpyLines.l_striplen := len - ind; EpyLines.l_underline := false;
+                           EpyLines.l_rest := bul; EpyLines.l_rest_dcolon := false |} in
+  option_map (fun r => EpyLines.tokens_of (fst r))
+             (EpyLines.tokenize [mk 4 0 false; mk 0 0 false; mk 8 2 true; mk 8 4 false; mk 11 0 true]%nat)
+  = Some [(EpyLines.PARA, 0); (EpyLines.BULLET, 2); (EpyLines.PARA, 2); (EpyLines.BULLET, 4); (EpyLines.PARA, 4)]%nat.
+Proof. vm_compute. reflexivity. Qed.
